@@ -290,9 +290,32 @@ func OracleC04(run *common.Run, id string, res *Result) int {
 		}
 	}
 	at := func(k string, n int) pos { return cnt[k+"."+strconv.Itoa(n)] }
+	proReads := map[int]int{}
+	for _, n := range res.Pro {
+		proReads[n]++
+	}
 	for n := 0; n < N; n++ {
-		if len(at("SB", n)) > 1 {
-			fail("double-fetch", fmt.Sprintf("node %d (%s) fetched from the source %d times", n, g.Nodes[n].Kind, len(at("SB", n))))
+		if tot := len(at("SB", n)) + proReads[n]; tot > 1 {
+			sig := "double-fetch"
+			// known finding prologue-read-twice: exactly one read in Copy's prologue and one in copyGraph, by one of
+			// the two prologue mechanisms that do not feed the proxy cache: (a) WithTargetPlatform on an
+			// image-manifest root (SelectManifest reads the manifest and its config with caching stopped),
+			// (b) resolveRoot through a ReferenceFetcher for a root that is not a manifest (the opened reader is
+			// closed unread, the cache push fails; copy.go carries a TODO)
+			if len(at("SB", n)) == 1 && proReads[n] == 1 {
+				root0 := c.Root
+				if c.MapRoot >= 0 {
+					root0 = c.MapRoot
+				}
+				rn := g.Nodes[root0]
+				platOnImage := c.Platform != "" && (rn.Kind == dag.KImage || rn.Kind == dag.KDocker) &&
+					(n == root0 || (len(rn.Succ) > 0 && (n == rn.Succ[0] || (rn.Subject >= 0 && len(rn.Succ) > 1 && n == rn.Succ[1]))))
+				refBlobRoot := c.RefFetch && (c.Mode == "t" || c.Mode == "r") && n == c.Root && !g.Nodes[n].IsManifest() && len(g.Nodes[n].Bytes) > 0
+				if platOnImage || refBlobRoot {
+					sig = "prologue-read-twice"
+				}
+			}
+			fail(sig, fmt.Sprintf("node %d (%s) read from the source %d times in one call (%d in the prologue, %d while copying)", n, g.Nodes[n].Kind, tot, proReads[n], len(at("SB", n))))
 		}
 		if len(at("PB", n)) > 1 {
 			fail("double-push", fmt.Sprintf("node %d (%s) pushed %d times", n, g.Nodes[n].Kind, len(at("PB", n))))
@@ -356,7 +379,7 @@ func OracleC04(run *common.Run, id string, res *Result) int {
 
 // Budget of one harness run.
 type Budget struct {
-	Main, Contention, Twin, CbFail, Mount, Remote, RootPresent, Extended, TwinReach int
+	Main, Contention, Twin, CbFail, Mount, Remote, RootPresent, Extended, TwinReach, PlatImage int
 	Sched, SchedReps                      int // graphs run under testing/synctest with the PRNG-controlled scheduler, extra schedules per graph
 	Small                                 bool // small-scope enumeration (graphs <= 3 nodes, sampled 4-node graphs) x roots x closed subsets
 	Reps                           int // extra schedules (latency seeds) per generated case
@@ -540,6 +563,7 @@ func Drive(run *common.Run, prop string, b Budget) {
 	stream("extended", b.Extended)
 	stream("mount", b.Mount)
 	stream("remote", b.Remote)
+	stream("platimage", b.PlatImage)
 	stream("twin", b.Twin)
 	stream("twinreach", b.TwinReach)
 	if T != nil {
